@@ -26,7 +26,7 @@ theorem reads_decVarElems (env : Env) (hlim : env.limit = none) {elem : Dec Val}
   rw [toInt32_alen hal]
   have h1 : ¬ ((alen : Int) = -1) := by omega
   simp only [h1, if_false, Int.toNat_natCast]
-  exact Reads.congr (Reads.bind (reads_request hlim alen) r) (List.nil_append _) rfl
+  exact Reads.congr (Reads.bind (reads_requestAt hlim _ alen) r) (List.nil_append _) rfl
 
 /-- 1-D array value: `.slice false xs` whose elements are leaves -/
 theorem wtArr_one {leaf : Val → Bool} {alen : Nat} {value : Val} (h : wtArr leaf [alen] value = true) :
@@ -66,7 +66,7 @@ theorem rt_dims (env : Env) (hlim : env.limit = none) (c : Bool) (dlen : Nat) (d
                                       omega)
     · unfold optDec decDimList
       simp only [if_true]
-      have r1 := reads_request hlim dlen
+      have r1 := reads_requestAt hlim .dims dlen
       have r2 := reads_decDims ds hds
       rw [hl] at r2
       have r3 := Reads.map (g := some) r2
